@@ -572,11 +572,16 @@ func rulePublishedImmutable(c *Ctx, r *R) {
 				return
 			}
 			cc := &call.Call
-			if !(isCallTo(cc, "sync/atomic", "Pointer", "Store") || isCallTo(cc, "sync/atomic", "Pointer", "Swap") || isCallTo(cc, "sync/atomic", "Pointer", "CompareAndSwap") ||
-				isCallTo(cc, "sync/atomic", "Value", "Store") || isCallTo(cc, "sync/atomic", "Value", "Swap") || isCallTo(cc, "sync/atomic", "Value", "CompareAndSwap")) {
+			pubArgs := cc.Args
+			if op, args, ok := atomicPtrOp(call); ok && (op == "Store" || op == "Swap" || op == "CompareAndSwap") {
+				pubArgs = args // (also through a thin accessor: w.publish(next))
+			} else if !(isCallTo(cc, "sync/atomic", "Value", "Store") || isCallTo(cc, "sync/atomic", "Value", "Swap") || isCallTo(cc, "sync/atomic", "Value", "CompareAndSwap")) {
 				return
 			}
-			obj := resolveVal(cc.Args[len(cc.Args)-1])
+			if len(pubArgs) == 0 {
+				return
+			}
+			obj := resolveVal(pubArgs[len(pubArgs)-1])
 			if mi, ok := obj.(*ssa.MakeInterface); ok {
 				obj = resolveVal(mi.X)
 			}
